@@ -204,3 +204,58 @@ func H01Reparse() {
 	vndAssert(m1[0].OrigUnit == m2[0].OrigUnit && m1[0].Key == m2[0].Key && m1[0].Value == m2[0].Value && m1[0].Unit == m2[0].Unit, "same-unit-metadata")
 	vndObserveBytes("out", buf.Bytes())
 }
+
+// H01Files: the stream the tools read — several input files through one Files/Reader, each
+// with its own unit-metadata lines (repeated, conflicting or new across the files) — is
+// written and read back: same results, same unit-metadata records in the same order.
+func H01Files() {
+	var paths []string
+	for k := 0; k < 2; k++ {
+		var text []byte
+		if vndBool("unit-line") {
+			text = append(text, "Unit ns/op better="...)
+			if vndBool("higher") {
+				text = append(text, "higher"...)
+			} else {
+				text = append(text, "lower"...)
+			}
+			text = append(text, '\n')
+		}
+		text = append(text, "BenchmarkA 1 1.5 ns/op\n"...)
+		if vndBool("second-unit-line") {
+			text = append(text, "Unit widgets assume=exact\n"...)
+		}
+		name := string([]byte{'f', '1' + byte(k)})
+		vndFile(name, text)
+		paths = append(paths, name)
+	}
+	f := &Files{Paths: paths}
+	var buf bytes.Buffer
+	w := NewWriter(&buf)
+	var results []*Result
+	var metas []*UnitMetadata
+	for f.Scan() {
+		switch rec := f.Result().(type) {
+		case *Result:
+			results = append(results, rec.Clone())
+			w.Write(rec)
+		case *UnitMetadata:
+			metas = append(metas, rec)
+			w.Write(rec)
+		}
+	}
+	vndReach("h01:files")
+	vndAssert(f.Err() == nil && len(results) == 2, "both-files-are-read")
+	r2, m2, e2 := h01ReadAll(buf.Bytes())
+	vndAssert(e2 == 0, "output-has-no-syntax-errors")
+	vndAssert(len(r2) == len(results), "same-record-counts")
+	vndAssert(len(m2) == len(metas), "same-unit-metadata-records")
+	for i := 0; i < len(metas) && i < len(m2); i++ {
+		vndAssert(metas[i].Unit == m2[i].Unit && metas[i].Key == m2[i].Key && metas[i].Value == m2[i].Value, "same-unit-metadata")
+	}
+	for i := 0; i < len(results) && i < len(r2); i++ {
+		vndAssert(results[i].GetConfig(".file") == "f"+string([]byte{'1' + byte(i)}), "result-carries-its-file-label")
+		vndAssert(r2[i].GetConfig(".file") == "", "internal-label-is-not-written")
+	}
+	vndObserveBytes("out", buf.Bytes())
+}
